@@ -620,6 +620,59 @@ pub fn run(ctx: &Ctx) {
         ctx.merge("session-twin-trains", st);
         ctx.part_done("session-twin-trains", true, json!({"sessions": n_trains, "what": "consecutive messages on one bus instance that agree in address, type, length and in byte sum / xor / multiset / first and last bytes, and differ: each must be written as itself"}));
     }
+    // reply look-alikes: after a reply P, the next line begins like P's text (or is P's text slightly altered). What a
+    // bus object remembers about earlier replies must not colour the decoding of the next line.
+    {
+        let mut st = Stats::new();
+        let mut cases: Vec<SessionCase> = vec![];
+        for p in [M::Report(3, 2), M::Report(3, 6), M::Ack(3, 1), M::Report(0x0300, 0)] {
+            let w = wire_of(&p);
+            let mut lines: Vec<Vec<u8>> = vec![];
+            for suffix in [&b"FF"[..], b"00", b" ", b"\r", b":", b"0"] {
+                let mut l = w.clone();
+                l.extend_from_slice(suffix);
+                lines.push(l);
+            }
+            // a valid longer frame that shares P's text up to P's checksum, and the same with its length digit damaged to P's
+            if let RefDecode::Ok { addr, ty, data } = ref_decode(&w) {
+                let ck = u8::from_str_radix(std::str::from_utf8(&w[w.len() - 2..]).unwrap(), 16).unwrap();
+                let mut d2 = data.clone();
+                d2.push(ck);
+                let longer = wire_of(&M::Unknown { addr, ty, data: d2 });
+                let mut damaged = longer.clone();
+                damaged[1..3].copy_from_slice(&w[1..3]);
+                lines.push(longer);
+                lines.push(damaged);
+            }
+            lines.push(w[..w.len() - 1].to_vec());
+            let mut l = w.clone();
+            let last = l.len() - 1;
+            l[last] = if l[last] == b'0' { b'1' } else { b'0' };
+            lines.push(l);
+            lines.push(w.to_ascii_lowercase());
+            for l in lines {
+                for first in [M::Query(3), M::Hello(3)] {
+                    cases.push(SessionCase {
+                        msgs: vec![first.clone(), M::Query(3), M::Query(3), M::Query(3)],
+                        tape: vec![Line::Msg(p.clone()), Line::Raw(l.clone()), Line::Msg(p.clone()), Line::Raw(l.clone())],
+                        crlf: true,
+                        timeout_at_end: false,
+                        read_error_at: None,
+                    });
+                }
+            }
+        }
+        let n_cases = cases.len();
+        for c in &cases {
+            if let Err(m) = check_session(c, &mut st) {
+                ctx.fail("session-reply-lookalikes", serde_json::to_value(c).unwrap(), m);
+                break;
+            }
+            st.nontrivial(crate::engine::h64(c));
+        }
+        ctx.merge("session-reply-lookalikes", st);
+        ctx.part_done("session-reply-lookalikes", true, json!({"sessions": n_cases, "what": "a reply, then a line that begins like that reply's text (suffixes, a valid longer frame sharing the prefix, the same with its length digit damaged) or alters it slightly, judged by the reference decoder alone"}));
+    }
     crate::engine::run_generated_opts(ctx, "session-generated", ctx.tier.pick(40_000, 600_000), 64, 2_000, session_strategy, |c, st| check_session(c, st));
 
     crate::engine::with_logging(|| {
